@@ -720,6 +720,8 @@ def interval_overlap(a: int, b: int, x: int, y: int) -> int:
         return b - max(a, x)
     elif a >= x and b <= y:
         return b - a
+    elif a <= x and y <= b:
+        return y - x
     else:
         assert False
 
